@@ -217,6 +217,27 @@ def build_harness(ctx, race=False):
 
 def run_harness(ctx, binpath, module, behaviours, name, shards=None, timeout=900, mode="", n=0, extra_env=None):
     """step 3: replay behaviours in parallel shards; returns (trace path, merged summary)."""
+    # a restarted in-process teamserver keeps its operator endpoint's port for the life of the process (gin's RunTLS cannot be closed from
+    # outside): histories of modules that restart are replayed in rounds, so that no process goes through more than 1200 of them
+    per_round = 1200 * (shards or NPROC)
+    if module in ("pivot", "sessions", "loot", "registry", "route", "persist") and len(behaviours) > per_round:
+        merged = {"behaviours": 0, "events": 0, "incidents": [], "counters": {}, "samples": []}
+        trace = os.path.join(ctx.scratch, "run_" + name + ".rounds.ndjson")
+        with open(trace, "w") as tf:
+            for r, lo in enumerate(range(0, len(behaviours), per_round)):
+                t1, s1 = run_harness(ctx, binpath, module, behaviours[lo:lo + per_round], "%s.r%d" % (name, r), shards, timeout, mode, n, extra_env)
+                with open(t1) as f:
+                    shutil.copyfileobj(f, tf)
+                os.remove(t1)
+                for inc in s1["incidents"]:
+                    if isinstance(inc.get("behaviour"), int) and inc["behaviour"] >= 0:
+                        inc["round"] = r
+                    merged["incidents"].append(inc)
+                merged["behaviours"] += s1["behaviours"]; merged["events"] += s1["events"]
+                for k, v in s1["counters"].items():
+                    merged["counters"][k] = merged["counters"].get(k, 0) + v
+                merged["samples"] = (merged["samples"] + s1["samples"])[:4]
+        return trace, merged
     d = os.path.join(ctx.scratch, "run_" + name)
     shutil.rmtree(d, ignore_errors=True); os.makedirs(d)
     inp = os.path.join(d, "behaviours.json")
